@@ -218,6 +218,18 @@ static void run_program(Rng& r) {
     VF_CHECK(throws([&] { sk[0]->merge(o1); }), Tk + "incompatible-merge-accepted|num_hashes", G().cur_desc);
     VF_CHECK(throws([&] { sk[0]->merge(o2); }), Tk + "incompatible-merge-accepted|num_buckets", G().cur_desc);
     VF_CHECK(throws([&] { sk[0]->merge(o3); }), Tk + "incompatible-merge-accepted|seed", G().cur_desc);
+    // a different seed whose 16-bit seed hash (the only seed information stored in images) collides
+    {
+      const uint16_t want = ref_seed_hash(seed);
+      uint64_t s2 = seed;
+      for (uint64_t t = 1; t < 2000000; ++t) { if (ref_seed_hash(seed + t * 0x9e3779b97f4a7c15ULL) == want) { s2 = seed + t * 0x9e3779b97f4a7c15ULL; break; } }
+      if (s2 != seed) {
+        count_min_sketch<W> o4(nh, nb, s2);
+        o4.update(uint64_t(1), W(3));
+        VF_CHECK(throws([&] { sk[0]->merge(o4); }), Tk + "incompatible-merge-accepted|seed-with-colliding-seed-hash", G().cur_desc + " other_seed=" + std::to_string(s2));
+        count("colliding_seed_hash_merges");
+      }
+    }
     observe(*sk[0], md[0], universe, r, "refused-merges", false);
     count("refused_merges");
   }
